@@ -553,7 +553,7 @@ fn is_block_like(e: &syn::Expr) -> bool {
             | syn::Expr::ForLoop(_)
             | syn::Expr::Const(_)
             | syn::Expr::TryBlock(_)
-    )
+    ) || matches!(e, syn::Expr::Macro(m) if matches!(m.mac.delimiter, syn::MacroDelimiter::Brace(_)))
 }
 /// an expression that, as the tail of a function body, would be read as a statement followed by more tokens
 fn block_leading(e: &syn::Expr) -> bool {
